@@ -855,11 +855,17 @@ func (e *Exec) appendSym(s *SliceV, t Value) Value {
 	case *StrV:
 		tlen, toff, tarr = q.len, q.off, q.arr
 	}
-	if tlen == nil || tlen.IsConst() || tarr == nil || !toff.IsConst() || !scalarCells(tarr) {
+	if tlen == nil || tarr == nil || !toff.IsConst() || !scalarCells(tarr) {
 		return nil
 	}
-	if !s.len.IsConst() || !s.off.IsConst() || (s.arr != nil && !scalarCells(s.arr)) {
+	if tlen.IsConst() && s.len.IsConst() {
+		return nil // fully concrete lengths: handled by the general code
+	}
+	if !s.off.IsConst() || (s.arr != nil && !scalarCells(s.arr)) {
 		return nil
+	}
+	if !s.len.IsConst() {
+		return e.appendSymBoth(s, tlen, int(toff.val), tarr)
 	}
 	e.noteRead(tarr.obj)
 	so := int(toff.val)
@@ -912,4 +918,86 @@ func (e *Exec) windowBytes(a *Arr, off int) []*Term {
 		out = append(out, c.v.(*Term))
 	}
 	return out
+}
+
+// appendSymBoth: append with a symbolic destination length (and possibly symbolic source
+// length) over concrete backing arrays.
+func (e *Exec) appendSymBoth(s *SliceV, tlen *Term, so int, tarr *Arr) Value {
+	tb := e.tb
+	e.noteRead(tarr.obj)
+	maxSrc := len(tarr.cells) - so
+	if ub := upperBound(tlen); ub < uint64(maxSrc) {
+		maxSrc = int(ub)
+	}
+	srcT := make([]*Term, maxSrc)
+	for i := range srcT {
+		srcT[i] = tarr.cells[so+i].v.(*Term)
+	}
+	w := srcT0w(srcT, tarr)
+	zero := tb.Const(w, 0)
+	srcAt := func(idx *Term) *Term {
+		if len(srcT) == 0 {
+			return zero
+		}
+		return e.selectTree(idx, srcT)
+	}
+	newLen := tb.Add(s.len, tlen)
+	fits := tb.Ule(newLen, s.cap)
+	if s.arr != nil && e.branch(fits, "append-fits") {
+		e.noteWrite(s.arr.obj, "append")
+		do := int(s.off.val)
+		newv := make([]*Term, len(s.arr.cells))
+		for j, c := range s.arr.cells {
+			old := c.v.(*Term)
+			if j < do {
+				newv[j] = old
+				continue
+			}
+			rel := e.c64(int64(j - do))
+			in := tb.And(tb.Ule(s.len, rel), tb.Ult(rel, newLen))
+			if in.IsFalse() {
+				newv[j] = old
+				continue
+			}
+			newv[j] = tb.Ite(in, srcAt(tb.Sub(rel, s.len)), old)
+		}
+		for j, c := range s.arr.cells {
+			if newv[j] != c.v {
+				e.setLeaf(c, newv[j])
+			}
+		}
+		return &SliceV{arr: s.arr, off: s.off, len: newLen, cap: s.cap}
+	}
+	// reallocation: fresh array large enough for the largest possible result
+	maxOld := 0
+	do := 0
+	if s.arr != nil {
+		do = int(s.off.val)
+		maxOld = len(s.arr.cells) - do
+		if ub := upperBound(s.len); ub < uint64(maxOld) {
+			maxOld = int(ub)
+		}
+		e.noteRead(s.arr.obj)
+	}
+	total := maxOld + maxSrc
+	if total > 4096 {
+		panic(pathAbort{"bound", "symbolic append result larger than 4096 elements"})
+	}
+	oldT := make([]*Term, maxOld)
+	for i := range oldT {
+		oldT[i] = s.arr.cells[do+i].v.(*Term)
+	}
+	a := e.newArr(tarr.elem, total, e.newObj("alloc", "append@"+e.site()), func(j int) Value {
+		jt := e.c64(int64(j))
+		v := zero
+		inSrc := tb.And(tb.Ule(s.len, jt), tb.Ult(jt, newLen))
+		if !inSrc.IsFalse() {
+			v = tb.Ite(inSrc, srcAt(tb.Sub(jt, s.len)), zero)
+		}
+		if j < maxOld {
+			v = tb.Ite(tb.Ult(jt, s.len), oldT[j], v)
+		}
+		return v
+	})
+	return &SliceV{arr: a, off: e.c64(0), len: newLen, cap: newLen}
 }
